@@ -211,10 +211,10 @@ func (cc *ClientConn) newStream(
 		}
 	}
 
-	id, rw, teardown, err := cc.mp.NewStreamReadWriter(ctx)
-	if err != nil {
-		return nil, err
-	}
+	// Begin before anything that can fail, so that every RPC - also one
+	// attempted on a connection that has already failed - is seen by the stats
+	// handlers as exactly one Begin and one End (as Invoke does).
+	var err error
 
 	beginTime := time.Now()
 	for _, sh := range cc.statsHandlers {
@@ -241,6 +241,11 @@ func (cc *ClientConn) newStream(
 			}
 		}
 	}()
+
+	id, rw, teardown, err := cc.mp.NewStreamReadWriter(ctx)
+	if err != nil {
+		return nil, err
+	}
 
 	// open stream
 	rpc := goatorepo.Rpc{
